@@ -161,8 +161,8 @@ def run(rep, tier, seed, tr_errors):
             broken[sym] = err or "lemma not proved"
     rep.oblige("translator:tr_tlm", "tr_tlm" not in tr_errors, tr_errors.get("tr_tlm", "gen/Tlm_gen.v regenerated")[-400:])
     thm_ok, names, out = lib.check_props_file(rep, PROPS_FILE)
-    for need in ("C02_Tlm_numeric_eq_symbolic", "C02_Tlm_documented_equation", "C02_Tlm_refused_iff"):
-        rep.oblige("theorem-present:%s" % need, need in names, "")
+    thm_ok2, names2, out2 = lib.check_props_file(rep, "Props/C02_Tlm.v", expect=["C02_Tlm_numeric_eq_symbolic", "C02_Tlm_documented_equation", "C02_Tlm_refused_iff"])
+    thm_ok = thm_ok and thm_ok2
     # numeric sweep (support; and the violation search for broken classes)
     n_quick, n_thorough = 25, 400
     n = n_quick if tier == "quick" else n_thorough
